@@ -71,6 +71,43 @@ fn base_cfgs() -> Vec<Cfg> {
     ]
 }
 
+/// Configurations whose image is larger than 65 535 bytes (the byte count no longer fits 16 bits
+/// although the 16-bit *word* count still does): one per builder kind that can get there.
+pub fn large_cfgs() -> Vec<Cfg> {
+    let mut v = vec![];
+    for total in [65_532usize, 65_536, 65_540, 131_076, 262_144] {
+        v.push(Cfg::App { ssrc: 0xa1a2_a3a4, subtype: 7, name: "LARG".into(), data: (0..total - 12).map(|i| (i * 7 + 3) as u8).collect(), padding: 0 });
+        v.push(Cfg::Unknown { pt: 199, count: 5, data: (0..total - 4).map(|i| (i * 5 + 1) as u8).collect(), padding: 0 });
+        v.push(Cfg::Custom { pt: 207, min: 8, count: 1, body: (0..total - 4).map(|i| (i * 3 + 2) as u8).collect(), padding: 0 });
+        v.push(Cfg::Fb { kind: FbKind::Payload, sender: 1, media: 2, fci: Fci::Rpsi { pt: 97, bits: (0..total - 14).map(|i| (i * 11 + 5) as u8).collect(), overrun: 0 }, padding: 0 });
+        v.push(Cfg::Fb {
+            kind: FbKind::Payload,
+            sender: 1,
+            media: 2,
+            fci: Fci::Sli((0..(total - 12) / 4).map(|i| ((i & 0x1fff) as u16, ((i * 3) & 0x1fff) as u16, (i & 0x3f) as u8)).collect()),
+            padding: 0,
+        });
+        if (total - 12) % 8 == 0 {
+            v.push(Cfg::Fb { kind: FbKind::Payload, sender: 3, media: 4, fci: Fci::Fir((0..((total - 12) / 8) as u32).map(|i| (i * 2 + 1, i as u8)).collect()), padding: 0 });
+        }
+    }
+    // padded variants just above the 16-bit byte boundary
+    v.push(Cfg::App { ssrc: 1, subtype: 0, name: "pad".into(), data: vec![0x33; 65_536], padding: 8 });
+    v.push(Cfg::Unknown { pt: 210, count: 0, data: vec![0x44; 65_532], padding: 4 });
+    v.push(Cfg::Fb { kind: FbKind::Payload, sender: 1, media: 2, fci: Fci::Rpsi { pt: 1, bits: vec![0xa5; 70_001], overrun: 5 }, padding: 252 });
+    // SDES: one chunk with 256 maximal items; 31 chunks with 9 maximal items each
+    let big_item = |k: usize| Item { type_: 1 + (k % 7) as u8, prefix: vec![], value: "x".repeat(255) };
+    v.push(Cfg::Sdes { chunks: vec![Chunk { ssrc: 0x0000_00ff, items: (0..256).map(big_item).collect() }], padding: 0 });
+    v.push(Cfg::Sdes { chunks: (0..31u32).map(|c| Chunk { ssrc: c << 8, items: (0..9).map(big_item).collect() }).collect(), padding: 4 });
+    // a compound whose second member starts beyond 65 535 bytes
+    v.push(Cfg::Compound(vec![
+        Cfg::App { ssrc: 1, subtype: 0, name: "big".into(), data: vec![0x77; 65_540], padding: 0 },
+        Cfg::Rr { ssrc: 2, blocks: vec![], padding: 0 },
+        Cfg::Bye { sources: vec![2], reason: "end".into(), padding: 4 },
+    ]));
+    v
+}
+
 /// Deterministic sweeps + seeded random configurations.
 /// `all_paddings`: sweep every u8 padding (C16) rather than only the legal ones.
 pub fn workload(
@@ -152,6 +189,12 @@ pub fn workload(
             }
         }
     }
+    // 2b. images larger than 65 535 bytes (skipped in the interpreter / valgrind tiers)
+    if !tiny {
+        for c in large_cfgs() {
+            go(ctx, &c);
+        }
+    }
     // 3. seeded random: valid-biased and limit-biased
     let n = ctx.n(if ctx.thorough { n_thorough } else { n_quick });
     let mut s = Src::prng(mix(ctx.seed, salt.wrapping_mul(0x1_0001) + shard as u64));
@@ -200,6 +243,7 @@ fn lens_for(n: usize) -> Vec<usize> {
 }
 
 pub fn check_c06(ctx: &mut Ctx, cfg: &Cfg, how: How) {
+    let _case = crate::watchdog::case_cfg("c06", cfg, how);
     ctx.eval();
     let kind = cfg.kind_name();
     let case = || cfg_case("c06", cfg, how);
@@ -452,6 +496,7 @@ fn first_diff(a: &[u8], b: &[u8]) -> usize {
 }
 
 pub fn check_c07(ctx: &mut Ctx, cfg: &Cfg, how: How) {
+    let _case = crate::watchdog::case_cfg("c07", cfg, how);
     if !repr::violations(cfg).is_empty() {
         ctx.class("c07:skipped:unrepresentable");
         return;
@@ -514,6 +559,7 @@ pub fn floor_c07(ctx: &Ctx) -> Vec<(String, bool)> {
 // ================================================================== C16
 
 pub fn check_c16(ctx: &mut Ctx, cfg: &Cfg, how: How) {
+    let _case = crate::watchdog::case_cfg("c16", cfg, how);
     ctx.eval();
     let kind = cfg.kind_name();
     let viol = repr::violations(cfg);
@@ -791,6 +837,7 @@ fn consume_defined(bytes: &[u8]) -> u64 {
 }
 
 pub fn check_c17(ctx: &mut Ctx, cfg: &Cfg, how: How) {
+    let _case = crate::watchdog::case_cfg("c17", cfg, how);
     if enc::size_of(cfg) > (1 << 20) {
         return;
     }
